@@ -33,7 +33,9 @@ fn case_strategy(max_dec: usize) -> BoxedStrategy<C04Case> {
         prop_oneof![Just(0u16), 0u16..8, 0u16..1024, Just(1024u16)],
         // u16::MAX = "fill the stream completely" (a full ring is a position where rpos == wpos, too)
         prop::collection::vec(prop_oneof![3 => 1u16..4, 3 => 1u16..300, 2 => Just(u16::MAX)], 0..4),
-        prop_oneof![1u16..4, 1u16..40, 1u16..1024],
+        // needs up to the whole stream, exactly the whole stream, and (a block asking for more
+        // than the stream can ever hold must still be released once its peer is gone) beyond it
+        prop_oneof![3 => 1u16..4, 3 => 1u16..40, 3 => 1u16..1024, 1 => Just(1024u16), 1 => 1025u16..2100],
         prop_oneof![Just(0u16), 1u16..8, 1u16..1024],
         decisions_strategy(max_dec),
     )
@@ -94,7 +96,7 @@ fn scenario_reader_waits(c: &C04Case, fails: Fails, gap: Arc<AtomicBool>) {
         }
         drop(ws); // the writer side goes away
     });
-    let need = (c.need as usize).clamp(1, CAP);
+    let need = (c.need as usize).clamp(1, 2 * CAP + 100);
     let consume = c.consume as usize;
     let api = c.api;
     let f2 = fails.clone();
@@ -204,7 +206,7 @@ fn scenario_writer_waits(c: &C04Case, fails: Fails, gap: Arc<AtomicBool>) {
         }
         drop(rs); // the reading side goes away
     });
-    let need = (c.need as usize).clamp(1, CAP);
+    let need = (c.need as usize).clamp(1, 2 * CAP + 100);
     let f2 = fails.clone();
     let writer = spawn("writer", move || {
         for _round in 0..80 {
